@@ -46,10 +46,14 @@ impl Layout {
         let mut step = vec![];
         let mut pad_b = vec![];
         let mut pad_a = vec![];
-        let plain = rng.chance(0.2);
+        // modes: 20% memory-contiguous with positive unit steps (C / F / permuted), 30% memory-contiguous with
+        // reversed axes (unit steps, some negative, no padding: `as_slice_memory_order` is Some but memory order
+        // is not logical order), 50% general (steps 1..3, reversed, padded)
+        let mode = rng.below(10);
+        let plain = mode < 5;
         for _ in 0..nd {
             let s = if plain { 1 } else { *rng.pick(&[1isize, 1, 2, 3]) };
-            let neg = !plain && rng.chance(0.4);
+            let neg = if mode < 2 { false } else if plain { rng.chance(0.6) } else { rng.chance(0.4) };
             step.push(if neg { -s } else { s });
             pad_b.push(if plain { 0 } else { rng.below(3) });
             pad_a.push(if plain { 0 } else { rng.below(3) });
